@@ -10,6 +10,12 @@ CLAIMED = {
   "note": "Trusted: Lean kernel; axioms propext/Classical.choice/Quot.sound only; the hand-written model (Casm/Model/Bits.lean) is tied to /repo by differential execution, not by translation; num_bigint::bits() is modelled as floor(log2)+1.",
   "technique": "Lean 4 proof (omega, induction) + model/implementation correspondence",
  },
+ "C05": {
+  "text": "Lean 4 theorems over the model of the expression layer (Casm/Props/C05.lean): literal value and size for every radix prefix, digit string and underscore placement (digitLoop_value, literal_value); + - * exact and unsized under the size cap; / and % truncate toward zero with a = b*q + r; << multiplies by 2^n, >> is floor division; ! is -x-1; & | ^ act bitwise on the infinite two's-complement expansion (tbit_intBitwise); slices and concatenation select/join exactly the named bits with sizes hi+1-lo and lw+rw; sizeof/strlen/le; division by zero, unsized concatenation, inverted slices, non-boolean conditions and ill-typed operands are errors. The operator-precedence table the model's parser is generic over is re-extracted from parser.rs on every run and proved equal to the documented table (precedence_as_documented). Tie: every generated expression is parsed and evaluated by the real code and by the compiled model (tree, consumed-all flag, value and error text compared) and by an independent Python integer reference.",
+  "design_ref": "DESIGN.md section 6, C05",
+  "note": "Trusted: Lean kernel and the three standard axioms; hand-written model of token.rs/excerpt.rs/parser.rs/eval.rs/builtin_fn.rs/bigint.rs tied by differential execution; translator regexes for the precedence/token tables; parse_print (parser inverts printing for all trees) is not a theorem yet - precedence between levels rests on the extracted table + correspondence; strings with first byte >= 0x80 are negative integers (known finding F20).",
+  "technique": "Lean 4 proof (induction, bit extensionality, omega) + extracted tables + model/implementation correspondence",
+ },
 }
 
 NOT_YET = {}
